@@ -34,8 +34,15 @@ RoundPart(e) ==
   /\ e.rpart.res = "ok"
   /\ SentEquiv(e.sent, e.rpart)
 
+\* --- C03, second clause: write o parse is idempotent on every string the parser accepts
+\*     (w1 = write(parse(s)), w2 = write(parse(w1)), both by the real code)
+IdemTok(e) == e.okw /\ e.w2 = e.w1
+IdemPart(e) == e.okw /\ e.w2 = e.w1
+
 Accept(e) ==
   CASE e.ev = "wtok" -> WtokTokens(e)
+    [] e.ev = "idemtok" -> IdemTok(e)
+    [] e.ev = "idempart" -> IdemPart(e)
     [] e.ev = "roundtok" -> RoundTok(e)
     [] e.ev = "roundpart" -> RoundPart(e)
     [] OTHER -> FALSE
@@ -44,6 +51,10 @@ Accept(e) ==
 Diag(e) ==
   CASE e.ev = "roundtok" -> LET r == ParseTokenized(e.wtok) IN r.res = "ok" /\ r.text = e.sent.text /\ r.bnd = e.sent.bnd /\ TokenTagsEquiv(e.sent, r)
     [] e.ev = "roundpart" -> LET r == ParsePartial(e.wpart) IN r.res = "ok" /\ SentEquiv(e.sent, r)
+    [] e.ev = "idemtok" -> LET a == ParseTokenized(e.s)  b == ParseTokenized(e.w1) IN
+                           a.res = "ok" /\ b.res = "ok" /\ a.text = b.text /\ a.bnd = b.bnd /\ TokenTagsEquiv(a, b)
+    [] e.ev = "idempart" -> LET a == ParsePartial(e.s)  b == ParsePartial(e.w1) IN
+                           a.res = "ok" /\ b.res = "ok" /\ SentEquiv(a, b)
     [] OTHER -> TRUE
 
 Check == l <= Len(Rec) =>
